@@ -8,6 +8,7 @@
 -/
 import AferoVerif.Model.MemMapFs
 import AferoVerif.Proofs.Path
+import AferoVerif.Proofs.Reach
 namespace AferoVerif.C01
 open AferoVerif AferoVerif.Path
 
@@ -92,5 +93,18 @@ theorem rename_self (m : MemFs) (a : Key) (f : Nat) (hl : m.lookup a = some f) :
     is kept visible; what is proved so far are the clauses above.  See DESIGN.md §6 C01. -/
 def C01_full_statement : String :=
   "∀ ops, WFseq ops → outs (run memInit ops) = outs (run posixInit ops) ∧ abs (run memInit ops) = run posixInit ops"
+
+/-! ### an invariant of every reachable state -/
+
+/-- **no dangling name**: after any sequence of operations (all Fs methods, every flag, every
+    handle method) every name of the path map leads to an allocated object — the part of the index
+    invariant that is proved for every reachable state (the rest of `Consistent`: see
+    `Proofs/MemFsInv.lean`, proved for the building blocks only) -/
+theorem every_name_allocated (ops : List Op) (k : Key) (f : Nat)
+    (h : (MemFs.run MemFs.init ops).lookup k = some f) : f < (MemFs.run MemFs.init ops).objs.length :=
+  MemFs.reachable_inRange ops k f h
+
+example : (MemFs.run MemFs.init [.mkdir "/a".toList 0o755, .create "/a/f".toList, .create "/g".toList, .remove "/g".toList]).lookup
+    (keyOfStr "/a/f".toList) = some 2 := by decide
 
 end AferoVerif.C01
